@@ -2,6 +2,7 @@ package simple
 
 import (
 	"context"
+	"strings"
 
 	"github.com/projecteru2/core/types"
 
@@ -42,7 +43,8 @@ func (b *BasicAuth) doAuth(ctx context.Context) error {
 	if !ok {
 		return types.ErrInvaildGRPCRequestMeta
 	}
-	passwords, ok := meta[b.username]
+	// gRPC lower-cases metadata keys on the wire, so look the username up the same way
+	passwords, ok := meta[strings.ToLower(b.username)]
 	if !ok {
 		return types.ErrInvaildGRPCUsername
 	}
